@@ -59,6 +59,51 @@ def getStatus (cfg : KSConfig) (loc tok : Str) (nowNs : Int) (body : Option Str)
     | some b => "200 " ++ encHex b
     | none => "404"
 
+/-- what the stub remote Keep service of the Go driver does in each mode, seen through
+`keepclient.Get`: `ok` serves the block it holds (404 otherwise); a status code is answered to
+every request; `drop` closes the connection without answering; `short` answers 200 with a one-byte
+body (the generator uses it only with a size hint other than 1) -/
+def remoteReplyOf (mode : String) (body : Option Str) : Option RemoteReply :=
+  if mode == "ok" then some (match body with | some b => .data b | none => .notFound)
+  else if ["400", "401", "403", "404"].contains mode then some .notFound
+  else if ["408", "429", "500", "502", "503", "504", "drop"].contains mode then some .temporary
+  else if mode == "short" then some .otherError
+  else none
+
+/-- `getremote`: BlobSigning on, the +R exit; the Go driver's keepclients have Retries = 2 -/
+def getRemote (loc tok remotes ttl key rpresent now mode : String) : String :=
+  let body : Option (Option Str) :=
+    if rpresent == "absent" then some none
+    else if rpresent.startsWith "p" then
+      (if rpresent.length == 1 then some [] else decHex (rpresent.drop 1).toString).map some
+    else none
+  let ids : List Str := if remotes == "-" then [] else (remotes.splitOn ",").map String.toList
+  match decHex loc, decHex tok, ttl.toInt?, decHex key with
+  | some loc, some tok, some ttl, some key =>
+    match body, now.toInt? with
+    | some body, some now =>
+      match remoteReplyOf mode body with
+      | none => "bad-op"
+      | some reply =>
+        let cfg : KSConfig := ⟨true, ttl, key⟩
+        match handleGET hmacSha1 cfg loc tok now with
+        | .remoteProxy =>
+          match remoteProxyGet hmacSha1 (fun r => ids.contains r) loc tok with
+          | .status code => s!"{code} | -"
+          | .forward _ fwd t =>
+            -- keepclient.Get answers the empty block itself, without a request
+            if "d41d8cd98f00b204e9800998ecf8427e+0".toList.isPrefixOf fwd then "200 - | -"
+            else
+              let resp := remoteProxyServe hmacSha1 (fun r => ids.contains r) loc tok (fun _ _ _ => reply) (fun _ => none)
+              let st := match resp.body with
+                | some b => s!"{resp.status} " ++ encHex b
+                | none => toString resp.status
+              let seen := " ; ".intercalate (List.replicate (remoteRequests 2 reply) s!"{encHex fwd} {encHex t}")
+              s!"{st} | {seen}"
+        | _ => getStatus cfg loc tok now none ++ " | -"
+    | _, _ => "bad-op"
+  | _, _, _, _ => "bad-op"
+
 def step (line : String) : String :=
   match fields line with
   | ["sign", loc, tok, exp, ttl, key] =>
@@ -128,32 +173,9 @@ def step (line : String) : String :=
       | _, _ => "bad-op"
     | _, _, _, _, _ => "bad-op"
   | ["getremote", loc, tok, remotes, ttl, key, rpresent, now] =>
-    let body : Option (Option Str) :=
-      if rpresent == "absent" then some none
-      else if rpresent.startsWith "p" then
-        (if rpresent.length == 1 then some [] else decHex (rpresent.drop 1).toString).map some
-      else none
-    let ids : List Str := if remotes == "-" then [] else (remotes.splitOn ",").map String.toList
-    match decHex loc, decHex tok, ttl.toInt?, decHex key with
-    | some loc, some tok, some ttl, some key =>
-      match body, now.toInt? with
-      | some body, some now =>
-        let cfg : KSConfig := ⟨true, ttl, key⟩
-        match handleGET hmacSha1 cfg loc tok now with
-        | .remoteProxy =>
-          match remoteProxyGet hmacSha1 (fun r => ids.contains r) loc tok with
-          | .status code => s!"{code} | -"
-          | .forward _ fwd t =>
-            -- keepclient.Get answers the empty block itself, without a request
-            if "d41d8cd98f00b204e9800998ecf8427e+0".toList.isPrefixOf fwd then "200 - | -"
-            else
-              let st := match body with
-                | some b => "200 " ++ encHex b
-                | none => "404"
-              s!"{st} | {encHex fwd} {encHex t}"
-        | _ => getStatus cfg loc tok now none ++ " | -"
-      | _, _ => "bad-op"
-    | _, _, _, _ => "bad-op"
+    getRemote loc tok remotes ttl key rpresent now "ok"
+  | ["getremote", loc, tok, remotes, ttl, key, rpresent, now, mode] =>
+    getRemote loc tok remotes ttl key rpresent now mode
   | ["getnow", loc, tok, ttl, key, present, now] =>
     let body : Option (Option Str) :=
       if present == "absent" then some none
